@@ -242,6 +242,55 @@ CLAIMED.update({
              'outside the domain (D13e observed only).',
         technique='Coq proof over handler tables translated from source (finite table check lifted to all exceptions/paths) + fault enumeration through main()'),
 })
+
+CLAIMED.update({
+    'C04': dict(
+        text='Theorems over small-step machines {state; bounds; tighten} mirroring tighten_bounds()/bounds() of the Bounded classes, '
+             'with the STRICT contract (bounds never widen, always contain the final value, a True step strictly shrinks, False only on '
+             'an interval that already is a single value and stays unchanged, at most width-many True steps): proved for ConstantCostEdit '
+             '(C04_const), the component-wise sum = KeyValuePairEdit/XML/DataClass combinator (C04_sum), repeat_until_tightened + '
+             'FixedLengthSequenceEdit (C04_fixed_len), EditDistance over children under the contract (C04_edit_distance: monotone fringe '
+             'minimum never exceeding the final cell, sound constant lower bound, delete-all/insert-all upper bound, completion step), '
+             'StringEdit (C04_string), and by a closing induction every tree of scalars, strings, nested lists (all list options) and '
+             'key/value pairs (C04_lists); C04_trace links the contract to the executable statement evaluated on implementation traces. '
+             'EditCollection/FixedKeyDictNodeEdit, the matcher, MultiSetEdit and the search are validated by trace only (listed in the '
+             'evidence). Tie: every Bounded object created during diff(), get_all_edits() and explicit drives is wrapped from outside; '
+             'holds_C04 on its trace, corr_C04 = the model machine reproduces the exact bounds/flag sequence of the root edit. Found and '
+             'led to the repair of D23, D24, D25.',
+        design_ref='5.4',
+        note='Trusted: Coq kernel + VM; hand-written machines tied by trace correspondence; trace-only classes have no theorem (partial).',
+        technique='Coq proof (per-class contract lemmas, fringe-diagonal invariants, closing induction over trees) + monitored trace correspondence'),
+    'C05': dict(
+        text='Theorems over an API machine (each public call bounds/tighten_bounds/is_complete/valid/edits/has_non_zero_cost as a '
+             'state-changing step, incl. EditDistance.bounds() finalising and freeing its matrix, the edits() memo, the quiet flag '
+             'selecting the extra bounds() reads): for ALL histories of calls on the edit and on listed sub-edits, for every tree of '
+             'scalars, strings, nested lists (all list options) and key/value pairs, no call errs, every call is answered, and completion '
+             'yields one value v independent of the history and of the quiet flag (C05_model_partial, C05_quiet_irrelevant_partial), which '
+             'is the cost of the big-step script model (C05_final_cost_partial); per-class lemmas C05_const/_sum/_fixed_len/'
+             '_edit_distance and the history invariant C05_invariant. _partial: MultiSetEdit, the matcher, EditCollection and the search are '
+             'not modelled (covered by holds_C05 on the implementation only); the final SCRIPT is compared by correspondence, not proved; '
+             'colour is covered by CLI runs only. Tie: exhaustive short and random long histories executed on the real edit objects under '
+             'both quiet settings; outcomes call by call and the final script must equal the model\'s.',
+        design_ref='5.5',
+        note='Trusted: Coq kernel + VM; hand-written API machine (on top of the C04 machines) tied by call-by-call correspondence. Open '
+             'finding replayed on every run: D36.',
+        technique='Coq proof (history induction with a structural invariant closed under every public call) + call-by-call history correspondence'),
+})
+CLAIMED['C12']['text'] = (
+    'Theorems (closed under the global context): JSON and JSON5 - for every layout and every document of the domain (any nesting, every '
+    'code point incl. lone surrogates, arbitrary number tokens, empty containers) parsing the model printer\'s output gives back the '
+    'document (C12_json, C12_json5 on the BMP; refuted for astral characters: open finding D17); CSV - csv_read (csv_print t) = Some t '
+    'for every table whose cells contain no CR, which is exactly the loader\'s image (C12_csv, with the refutation witness for CR); '
+    'YAML, plist, XML over plain content - parse (print t) = Some t for the models of graphtage\'s own structure printing with small '
+    'readers for the printers\' image (C12_struct_yaml under the Section hypotheses scalar_rt/scalar_lex about the third-party scalar '
+    'emitter, C12_struct_plist, C12_struct_xml; D15 = YAML empty containers is outside the non-empty domain and refuted on the model). '
+    'All printer models are tied byte-exactly to the real formatters on every run, the model readers to the real loaders on every printed '
+    'text, and reload equality through Filetype.build_tree is checked for every case.')
+CLAIMED['C12']['note'] = ('Trusted: Coq kernel + VM; json/json5/csv/PyYAML/plistlib/ElementTree as oracles (compared with the model readers on '
+                          'every printed text); number tokens and YAML scalar tokens are opaque (supplied by the harness, contract named in '
+                          'the theorem). Open findings: D15, D17. Observation outside the alphanumeric domain: D37 (plist strings are '
+                          'written unescaped).')
+CLAIMED['C12']['technique'] = 'Coq proof (codec and state-machine round trips by induction) + byte-exact printer/reader correspondence + reload through the real loaders'
 NOT_YET = 'model and theorem not completed yet (DESIGN.md section 7)'
 NA = {}
 
